@@ -713,6 +713,34 @@ Fixpoint run_msgsN (c : cfg) (na : nat) (sn : st * nk) (ms : list inmsg) : (st *
               let '(sn2, o2) := run_msgsN c na sn1 r in (sn2, o1 ++ o2)
   end.
 
+(* ---- the fast queue across Irc.reset() ----
+   sendMsg puts every registration line into irc.fastqueue; the driver takes them later (takeMsg).  Irc.reset()
+   empties the queue (self.queue.reset(); self.fastqueue.reset()) before it queues CAP LS / NICK / USER, so nothing
+   queued on the old connection is ever sent on the new one.  Queue items are tagged (ghost) with the number of the
+   connection they were queued on. *)
+Definition is_line (o : outev) : bool := match o with Send _ _ => true | SendCred _ _ => true | _ => false end.
+(* the outputs after the last reconnect/die of a step, if there is one *)
+Fixpoint last_conn (outs : list outev) : option (list outev) :=
+  match outs with
+  | [] => None
+  | o :: r => match last_conn r with Some x => Some x | None => if is_abort o then Some r else None end
+  end.
+Definition count_abort (outs : list outev) : nat := length (filter is_abort outs).
+Record qst := Qst { q_gen : nat; q_items : list (nat * outev) }.
+Definition stepQ (c : cfg) (na : nat) (snq : st * nk * qst) (m : inmsg) : (st * nk * qst) * list outev * option exn :=
+  let '(s, n, q) := snq in
+  let '((s', n'), o, e) := stepN c na (s, n) m in
+  let g' := (q_gen q + count_abort o + (if is_reset_msg m then 1 else 0))%nat in
+  let tag := map (fun x => (g', x)) in
+  let items' := if is_reset_msg m then tag (filter is_line o)
+                else match last_conn o with
+                     | Some suffix => tag (filter is_line suffix)
+                     | None => q_items q ++ tag (filter is_line o)
+                     end in
+  ((s', n', Qst g' items'), o, e).
+(* the driver takes everything that is queued *)
+Definition takeQ (q : qst) : list (nat * outev) * qst := (q_items q, Qst (q_gen q) []).
+
 (* ---- a conformant server that may also reject nicks ----
    State: rej = rejections it may still make; due = the welcome burst is owed (CAP END / USER was received while
    the nick was rejected); bad = it rejected the last NICK and has not received another one.
@@ -839,8 +867,11 @@ Definition run (v : value) : value :=
   let p := nth_v 1 v in
   match gN (nth_v 0 v) with
   | 0 => let cv := nth_v 0 p in let sv := nth_v 1 p in
-         let '(s', n', o, e) := stepN (gCfg cv) (N.to_nat (gN (nth_v 11 cv))) (gState sv, Nk (N.to_nat (gN (nth_v 11 sv))) (gB (nth_v 12 sv))) (gMsg (nth_v 2 p)) in
-         L [L (gL (vState s') ++ [vN (N.of_nat (alts n')); vB (tried n')]); L (map vOut (filter visible o)); vExn e]
+         let q0 := Qst 0 (map (fun x => (0%nat, gOut x)) (gL (nth_v 13 sv))) in
+         let '(s', n', q', o, e) := stepQ (gCfg cv) (N.to_nat (gN (nth_v 11 cv)))
+                                          (gState sv, Nk (N.to_nat (gN (nth_v 11 sv))) (gB (nth_v 12 sv)), q0) (gMsg (nth_v 2 p)) in
+         L [L (gL (vState s') ++ [vN (N.of_nat (alts n')); vB (tried n'); L (map (fun x => vOut (snd x)) (q_items q'))]);
+            L (map vOut (filter visible o)); vExn e]
   | 7 => L (map vMsg (strategyN (gSrv (nth_v 0 p)) (map (fun x => N.to_nat (gN x)) (gL (nth_v 1 p))) (N.to_nat (gN (nth_v 2 p)))
                                 (map gN (gL (nth_v 3 p))) (map (fun b => map gOut (gL b)) (gL (nth_v 4 p)))))
   | 1 => vO (fun pd => L [I (fst pd); I (snd pd)]) (parseStsPolicy2 (gS (nth_v 0 p)) (gB (nth_v 1 p)))
